@@ -1,0 +1,84 @@
+//go:build verif
+
+package s2
+
+// Read-only access to internal stages and state for the runtime monitors in
+// /verif. Compiled only with -tags verif; adds no behaviour.
+
+import (
+	"math/big"
+
+	"github.com/golang/geo/r3"
+	"github.com/golang/geo/s1"
+)
+
+const (
+	VerifMaxDeterminantError = maxDeterminantError
+	VerifDetErrorMultiplier  = detErrorMultiplier
+	VerifDblError            = dblError
+	VerifDblEpsilon          = dblEpsilon
+	VerifCellPadding         = cellPadding
+	VerifIntersectionError   = float64(intersectionError)
+)
+
+func VerifTriageSign(a, b, c Point) Direction    { return triageSign(a, b, c) }
+func VerifStableSign(a, b, c Point) Direction    { return stableSign(a, b, c) }
+func VerifExpensiveSign(a, b, c Point) Direction { return expensiveSign(a, b, c) }
+func VerifExactSign(a, b, c Point, perturb bool) Direction {
+	return exactSign(a, b, c, perturb)
+}
+
+func VerifTriageCompareCosDistances(x, a, b Point) int  { return triageCompareCosDistances(x, a, b) }
+func VerifTriageCompareSin2Distances(x, a, b Point) int { return triageCompareSin2Distances(x, a, b) }
+func VerifExactCompareDistances(x, a, b Point) int {
+	return exactCompareDistances(r3.PreciseVectorFromVector(x.Vector), r3.PreciseVectorFromVector(a.Vector), r3.PreciseVectorFromVector(b.Vector))
+}
+func VerifSymbolicCompareDistances(x, a, b Point) int { return symbolicCompareDistances(x, a, b) }
+func VerifTriageCompareCosDistance(x, y Point, r2 float64) int {
+	return triageCompareCosDistance(x, y, r2)
+}
+func VerifTriageCompareSin2Distance(x, y Point, r2 float64) int {
+	return triageCompareSin2Distance(x, y, r2)
+}
+func VerifExactCompareDistance(x, y Point, r s1.ChordAngle) int {
+	return exactCompareDistance(r3.PreciseVectorFromVector(x.Vector), r3.PreciseVectorFromVector(y.Vector), big.NewFloat(float64(r)).SetPrec(big.MaxPrec))
+}
+func VerifTriageSignDotProd(a, b Point) int { return triageSignDotProd(a, b) }
+
+func VerifIntersectionStable(a0, a1, b0, b1 Point) (Point, bool) {
+	return intersectionStable(a0, a1, b0, b1)
+}
+func VerifIntersectionExact(a0, a1, b0, b1 Point) Point { return intersectionExact(a0, a1, b0, b1) }
+
+func VerifContainsBruteForce(shape Shape, p Point) bool { return containsBruteForce(shape, p) }
+func VerifMinUpdateDistanceMaxError(d s1.ChordAngle) float64 {
+	return minUpdateDistanceMaxError(d)
+}
+func (l *Loop) VerifBruteForceContainsPoint(p Point) bool { return l.bruteForceContainsPoint(p) }
+func (l *Loop) VerifTurningAngleMaxError() float64        { return l.turningAngleMaxError() }
+
+// VerifClipped is a copy of one clipped shape of an index cell.
+type VerifClipped struct {
+	ShapeID        int32
+	ContainsCenter bool
+	Edges          []int
+}
+
+// VerifCells returns the current cell list without triggering an update.
+func (s *ShapeIndex) VerifCells() []CellID { return append([]CellID(nil), s.cells...) }
+
+// VerifCell returns a copy of the contents of the given index cell (nil if absent).
+func (s *ShapeIndex) VerifCell(id CellID) []VerifClipped {
+	c := s.cellMap[id]
+	if c == nil {
+		return nil
+	}
+	out := make([]VerifClipped, 0, len(c.shapes))
+	for _, cs := range c.shapes {
+		out = append(out, VerifClipped{cs.shapeID, cs.containsCenter, append([]int(nil), cs.edges...)})
+	}
+	return out
+}
+
+func (s *ShapeIndex) VerifPendingAdditionsPos() int32 { return s.pendingAdditionsPos }
+func (s *ShapeIndex) VerifNumShapesMap() int          { return len(s.shapes) }
